@@ -332,6 +332,14 @@ func c02GenConf(rng *rand.Rand, rs []*c01Rule) *vkConf {
 	if rng.Intn(3) == 0 {
 		c.CacheSize = 1 << 20
 	}
+	switch rng.Intn(6) {
+	case 0:
+		// A timed pause that is over: protection is in effect again, also
+		// for the very first queries after the deadline.
+		c.Protection, c.Pause = false, -1
+	case 1:
+		c.Protection, c.Pause = false, 1
+	}
 	c.Clients = []vkClient{
 		{Name: "kid", IP: "127.0.0.2", UseOwnSettings: true, FilteringEnabled: rng.Intn(3) != 0},
 	}
@@ -459,6 +467,12 @@ func c02One(rep *verifkit.Report, vs *vkServer, env *c01Env, texts []string, qna
 
 	// Preconditions of response filtering.
 	prot := conf.Protection
+	switch conf.Pause {
+	case 1:
+		prot = false
+	case -1:
+		prot = true
+	}
 	filt := conf.FilteringEnabled
 	for _, cl := range conf.Clients {
 		if cl.IP == src && cl.UseOwnSettings {
